@@ -1,6 +1,4 @@
-SPECIFICATION Spec
-CONSTANTS
-  MaxOut = 3
-  Tools = {"go", "ts"}
+SPECIFICATION TraceSpec
+CONSTRAINT HWM
 INVARIANTS FormatAfterWrite DoneMeansAllFormatted NoDoneAfterFailure CrashOnlyOnFailure ProbeAtMostOnce Mutex CacheTruthful ProbeOnlyNeeded
-PROPERTIES Terminates DoneIfNoFailure
+POSTCONDITION Post
